@@ -1,6 +1,8 @@
 import B2Z.Model.IndexBytes
 import B2Z.Model.Regions
 import B2Z.Proofs.BinThm
+import B2Z.Proofs.BinLevels
+import B2Z.Proofs.IndexBytes
 /-! # C09 — tabix and CSI indexes are parsed faithfully
 
 Model: `B2Z.Idx` (`Model/IndexBytes.lean`: `parseCsi`, `parseTbx`, serialisers) and the bin
@@ -50,7 +52,11 @@ theorem C09_csi_roundtrip (minShift depth : Int) (aux : Bytes) (bins : List (Lis
       .ok { minShift := minShift, depth := depth, aux := aux, bins := bins,
             counts := bins.map (specCount ((8 ^ (depth + 1).toNat - 1) / 7 + 1) CsiBin.bin CsiBin.chunks),
             nNoCoor := tail.getD 0 } := by
-  sorry
+  have e := encodeCsi_append minShift depth aux bins tail []
+  rw [List.append_nil, List.append_nil] at e
+  rw [e, parseCsi_body minShift depth aux bins _ wf.ms wf.depth_ok.1 wf.depth_ok.2 wf.aux_bytes.2 wf.nref
+    wf.nbin wf.pseudo, rdTrailer_tail tail wf.tail_ok]
+  rfl
 
 structure TbxWF (hdr6 : List Int) (names : Bytes) (refs : List (List TbxBin × List Nat)) (tail : Option Nat) : Prop where
   hdr : hdr6.length = 6 ∧ ∀ v ∈ hdr6, I32 v
@@ -68,25 +74,34 @@ theorem C09_tbi_roundtrip (hdr6 : List Int) (names : Bytes) (refs : List (List T
             bins := refs.map (·.1), linear := refs.map (·.2),
             counts := refs.map (fun x => specCount 37450 TbxBin.bin TbxBin.chunks x.1),
             nNoCoor := tail.getD 0 } := by
-  sorry
+  have e := encodeTbx_append hdr6 names refs tail []
+  rw [List.append_nil, List.append_nil] at e
+  rw [e, parseTbx_body hdr6 names refs _ wf.hdr.1 wf.hdr.2 wf.names_ok.2.1 wf.names_ok.2.2 wf.nref
+    wf.refs_ok wf.pseudo, rdTrailer_tail tail wf.tail_ok]
+  rfl
 
 /-- a file that is not an index of the expected kind is rejected with ValueError -/
 theorem C09_bad_magic_rejected (inp : Bytes) (h4 : 4 ≤ inp.length) :
     (inp.take 4 ≠ csiMagic → parseCsi inp = .error "ValueError") ∧
     (inp.take 4 ≠ tbiMagic → parseTbx inp = .error "ValueError") := by
-  sorry
+  exact ⟨parseCsi_bad_magic inp h4, parseTbx_bad_magic inp h4⟩
 
 theorem C09_cross_kind_rejected (minShift depth : Int) (aux : Bytes) (bins : List (List CsiBin)) (tail : Option Nat)
     (hdr6 : List Int) (names : Bytes) (refs : List (List TbxBin × List Nat)) :
     parseTbx (encodeCsi minShift depth aux bins tail) = .error "ValueError" ∧
     parseCsi (encodeTbx hdr6 names refs tail) = .error "ValueError" := by
-  sorry
+  exact ⟨parseTbx_csi minShift depth aux bins tail, parseCsi_tbx hdr6 names refs tail⟩
 
 /-- bytes after the unplaced-read count are rejected, never ignored -/
 theorem C09_trailing_garbage_rejected (minShift depth : Int) (aux : Bytes) (bins : List (List CsiBin)) (n : Nat)
     (wf : CsiWF minShift depth aux bins (some n)) (g : Bytes) (hg : g ≠ []) :
     ∃ e, parseCsi (encodeCsi minShift depth aux bins (some n) ++ g) = .error e := by
-  sorry
+  refine ⟨"error", ?_⟩
+  rw [encodeCsi_append, parseCsi_body minShift depth aux bins _ wf.ms wf.depth_ok.1 wf.depth_ok.2
+    wf.aux_bytes.2 wf.nref wf.nbin wf.pseudo]
+  show Except.map _ (rdTrailer (leBytes 8 n ++ g)) = _
+  rw [rdTrailer_garbage n g (wf.tail_ok n rfl) hg]
+  rfl
 
 /-- counts: `known 0` exactly for a contig without bins; unknown exactly when there are bins but no
     pseudo-bin -/
@@ -95,12 +110,12 @@ theorem C09_counts (pseudo : Nat) (bs : List CsiBin) (hp : PseudoOK pseudo CsiBi
     (specCount pseudo CsiBin.bin CsiBin.chunks bs = .unknown ↔ (bs ≠ [] ∧ ∀ b ∈ bs, b.bin ≠ pseudo)) ∧
     (∀ n, specCount pseudo CsiBin.bin CsiBin.chunks bs = .known n →
         (bs = [] ∧ n = 0) ∨ ∃ b ∈ bs, b.bin = pseudo ∧ ∃ c0 c, b.chunks = [c0, c] ∧ n = c.beg + c.fin) := by
-  sorry
+  exact specCount'_props pseudo CsiBin.bin CsiBin.chunks bs hp
 
 /-- sequence names: joining names with NUL terminators splits back (no name contains NUL) -/
 theorem C09_names_roundtrip (names : List Bytes) (h : ∀ nm ∈ names, ∀ b ∈ nm, b ≠ 0) :
     splitNames (names.flatMap fun nm => nm ++ [0]) = names := by
-  sorry
+  exact splitNames_join names h
 
 end B2Z.Idx
 
@@ -108,12 +123,12 @@ namespace B2Z.Regions
 /-! ## bin arithmetic, for all depths and shifts -/
 
 theorem firstBinInLevel_eq (l : Nat) : firstBinInLevel l = B2Z.firstBin l := by
-  sorry
+  exact firstBinInLevel_eq' l
 
 /-- `bin_limit(depth)` is the first bin of level `depth + 1`, and the tabix pseudo-bin literal is
     `bin_limit(14, 5) + 1` -/
 theorem C09_bin_limit (d : Nat) : Gen.bin_limit 0 (d : Int) = (firstBinInLevel (d + 1) : Int) := by
-  sorry
+  rw [B2Z.gen_bin_limit, firstBinInLevel_eq' (d + 1)]
 
 theorem C09_tabix_pseudo_bin : Gen.read_tabix_big_literals = [firstBinInLevel 6 + 1] := by
   decide
@@ -122,22 +137,22 @@ theorem C09_tabix_pseudo_bin : Gen.read_tabix_big_literals = [firstBinInLevel 6 
 theorem C09_level_brackets (depth bin : Nat) (h : bin < firstBinInLevel (depth + 1)) :
     firstBinInLevel (levelForBin depth bin) ≤ bin ∧ bin < firstBinInLevel (levelForBin depth bin + 1) ∧
     levelForBin depth bin ≤ depth := by
-  sorry
+  exact level_brackets depth bin h
 
 /-- within one level the first locus is strictly increasing in the bin number -/
 theorem C09_first_locus_strict (ms depth b b' : Nat) (hb : b < b') (hb' : b' < firstBinInLevel (depth + 1))
     (hl : levelForBin depth b = levelForBin depth b') :
     firstLocus ms depth b < firstLocus ms depth b' := by
-  sorry
+  exact first_locus_strict ms depth b b' hb hb' hl
 
 /-- bridging: the regenerated `get_level_for_bin` / `get_first_locus_in_bin` are the model's -/
 theorem C09_gen_level (depth bin : Nat) :
     Gen.get_level_for_bin (depth : Int) (bin : Int) = some (levelForBin depth bin : Int) := by
-  sorry
+  exact gen_level depth bin
 
 theorem C09_gen_first_locus (ms depth bin : Nat) :
     Gen.get_first_locus_in_bin (ms : Int) (depth : Int) (bin : Int) = some (firstLocus ms depth bin : Int) := by
-  sorry
+  exact gen_first_locus ms depth bin
 
 /-- virtual offset → file offset -/
 theorem C09_file_offset (v : Nat) : Gen.get_file_offset v = ((v / 65536 % 281474976710656 : Nat) : Int) :=
